@@ -285,7 +285,69 @@ def rule_d7(ctx, prefix="D7"):
             raise Unrecognised(f"C08.{prefix}", c, f"type-conflict test `{t}` not understood")
 
 
+def rule_d8(ctx):
+    """Names bound inside a match expression count as used, whether or not the quantifier itself is named: fresh names for free nonterminals are chosen to avoid
+    the used names, otherwise `exists <assgn>="{<var> var} := <rhs>": <var> = var` captures the free <var> as the bound `var`."""
+    m = ctx.repo.module(LANG, "C08.D8")
+    cls = "ConcreteSyntaxUsedVariablesCollector"
+    n = 0
+    for meth in ("enterForallMexpr", "enterExistsMexpr"):
+        fn = m.get(f"{cls}.{meth}")
+        if not isinstance(fn, ast.FunctionDef):
+            raise Unrecognised("C08.D8", f"{LANG}:{cls}", f"{meth} not found")
+        construct = f"{LANG}:{cls}.{meth}"
+        # follow one level of helper calls on self
+        todo = [(fn, [])]
+        found = False
+        seen = set()
+        while todo:
+            f_, inherited = todo.pop()
+            if f_.name in seen:
+                continue
+            seen.add(f_.name)
+            for c in calls_in(f_, include_nested=False):
+                nm = call_name(c) or ""
+                if nm == "self.collect_used_variables_in_mexpr":
+                    found = True
+                    n += 1
+                    conds = inherited + [(x.text, x.positive) for x in facts(c)]
+                    guarded = [t for t, pos in conds if "varId" in t]
+                    ctx.check(not guarded, "D8-mexpr-names-used", construct, "match-expression names collected unconditionally", site(c),
+                              f"the names bound in the match expression are only recorded when the quantifier is named (condition {guarded}): for a quantifier with an omitted name a later free "
+                              "nonterminal gets a default name that is already bound inside the match expression and is captured by it", "no dependence on ctx.varId")
+                elif nm.startswith("self.") and nm != "self.collect_used_variables_in_mexpr":
+                    helper = m.get(f"{cls}.{nm[5:]}")
+                    if isinstance(helper, ast.FunctionDef):
+                        todo.append((helper, inherited + [(x.text, x.positive) for x in facts(c)]))
+        if not found:
+            ctx.viol("D8-mexpr-names-used", construct, "match-expression names collected", site(fn), "the handler never records the names bound in the match expression")
+    if n < 2:
+        raise Unrecognised("C08.D8", f"{LANG}:{cls}", f"only {n} collection sites found")
+
+
+def rule_d9(ctx):
+    """XPath-to-match-expression merging: two derivation prefixes are merged only if the symbols along the shared path agree (both branches of
+    __merge_trees_at_path check it before answering Some(...))."""
+    m = ctx.repo.module(LANG, "C08.D9")
+    fn = next((f for q, f in m.functions() if q.startswith("AddMexprTransformer.") and q.endswith("merge_trees_at_path") and isinstance(f, ast.FunctionDef)), None)
+    if fn is None:
+        raise Unrecognised("C08.D9", f"{LANG}:AddMexprTransformer", "__merge_trees_at_path not found")
+    c = f"{LANG}:AddMexprTransformer.__merge_trees_at_path"
+    rets = [r for r in walk_local(fn) if isinstance(r, ast.Return) and isinstance(r.value, ast.Call) and call_name(r.value) == "Some"]
+    if len(rets) < 2:
+        raise Unrecognised("C08.D9", c, f"expected two Some(...) answers (found {len(rets)})")
+    pat = _re.compile(r"any\(\(merged_tree\.get_subtree\((\w+)\[:idx\]\)\.value != new_tree\.get_subtree\(\1\[:idx\]\)\.value for idx in range\(len\(\1\)\)\)\)")
+    for r in rets:
+        fs = facts(r)
+        ok = any((not f_.positive) and pat.fullmatch(" ".join(f_.text.split())) for f_ in fs)
+        ctx.check(ok, "D9-merge-symbols-agree", c, f"`{src(r.value)[:40]}` only after the symbols along the shared path were compared", site(r),
+                  "two match-expression prefixes are merged without checking that they carry the same symbols along the shared path: for a grammar whose alternatives swap child positions "
+                  "(<pair> ::= <left> \"=\" <right> | <right> \"~\" <left>) the translation of `<pair>.<left>.<key> = <pair>.<right>.<val>` gains wrong conjuncts", "dominated by the symbol comparison")
+
+
 def run(ctx) -> str:
+    ctx.guarded("D8", lambda: rule_d8(ctx))
+    ctx.guarded("D9", lambda: rule_d9(ctx))
     ctx.guarded("D7", lambda: rule_d7(ctx))
     ctx.guarded("D6", lambda: rule_d6(ctx))
     ctx.guarded("D1", lambda: rule_d1(ctx))
